@@ -283,7 +283,7 @@ pub fn check_case(schema: &str, op: &str, frag: &str, config: &str) -> Vec<Viola
                 Some(t) => vec![t],
                 None => texts.to_vec(),
             };
-            let unused = of_file.iter().any(|t| crate::refparse::parse_exec(t).map(|d| has_unused_fragment(&d)).unwrap_or(false));
+            let unused = of_file.iter().any(|t| unused_fragment_in_text(t));
             v.sig = format!("{}|{}", v.sig, if unused { "document-has-unused-fragment" } else { "every-fragment-used" });
         }
         out.push(v);
@@ -359,7 +359,7 @@ pub fn check_cli(ctx: &Ctx, n: u64, schema: &str, op: &str, frag: &str, config: 
             let p = crate::panicguard::Panicked { file: site.clone(), line: 0, msg: r.panic_message().unwrap_or_default() };
             let mut sig = format!("C08|panic|{site}|{}", p.msg_class());
             if site.starts_with("crates/printer/") {
-                let unused = [op, frag].iter().any(|t| crate::refparse::parse_exec(t).map(|d| has_unused_fragment(&d)).unwrap_or(false));
+                let unused = [op, frag].iter().any(|t| unused_fragment_in_text(t));
                 // the CLI does not say which file it was printing: a project with an unused fragment anywhere gets the
                 // listed finding's class only if the library route (same inputs, per-file labels) agrees
                 let lib: Vec<String> = check_case(schema, op, frag, config).into_iter().map(|v| v.sig).collect();
@@ -735,6 +735,15 @@ fn spreads_of(ss: &crate::model::SelSet, out: &mut Vec<String>) {
             crate::model::Sel::Spread { name, .. } => out.push(name.s.clone()),
             crate::model::Sel::Inline { sels, .. } => spreads_of(sels, out),
         }
+    }
+}
+
+/// does `text` (an operation file nitrogql parsed) hold a fragment that none of its operations reaches? A malformed
+/// `#import` line is a comment for nitrogql but an error for the reference parser: it is read as a comment here too.
+pub fn unused_fragment_in_text(text: &str) -> bool {
+    match crate::refparse::parse_exec(text) {
+        Ok(d) => has_unused_fragment(&d),
+        Err(_) => crate::refparse::parse_exec(&text.replace("#import", "# import")).map(|d| has_unused_fragment(&d)).unwrap_or(false),
     }
 }
 
